@@ -12,7 +12,8 @@ from .common import DIMSETS, sym_mesh
 
 META = dict(
     bounds=dict(
-        quick=dict(ndim="1..3", n="<=3 per axis (anisotropic, incl. single-cell axes)", nvdim="1..2", directions="every direction, every order"),
+        quick=dict(also="an axis called 'V'; integer-typed data means (native); mean by name on 1-d fields",
+                   ndim="1..3", n="<=3 per axis (anisotropic, incl. single-cell axes)", nvdim="1..2", directions="every direction, every order"),
         thorough=dict(ndim="1..4", n="<=4 per axis", nvdim="1..4", directions="every direction, every ordered subset"),
     ),
     stubs=[],
